@@ -7,7 +7,7 @@ RULE = ("programs: every program of the closure / call (params x variadic x args
         "tla/UgoSemFam.tla, expected outcome + side-effect log computed by the TLA+ reference semantics, run on the real compiler+VM "
         "with the optimizer on, off and at budget 1; per-instruction traces of the runs validated by UgoVMTrace.tla; "
         "scope structures: every valid arrangement of up to two declarations / assignments / reads of a, b and the builtin name len before, inside (with an optional statement at the intermediate level) and after one container out of 7 (block, function, loop body, block in function, function in block, function in function, function called twice); "
-        "non-trivial = every program (each exercises one documented rule)")
+        "non-trivial = every program (each exercises one documented rule); loops: continue / break of the outer loop written after a complete inner loop (two and three loops deep, for / for-in, in a function)")
 
 def run(ctx):
     semcommon.run_sem(ctx, "UgoSemFam_c02" if ctx.quick else "UgoSemFam_c02t", ["default", "noopt"] if ctx.quick else ["default", "noopt", "limit1"], label="c02", sample_every=200, trace_every=2 if ctx.quick else 4)
